@@ -12,7 +12,8 @@ Mirrors, call by call,
      from the id), internal/xpkg/reader.go (tee / gzip readers),
   internal/xpkg/lint.go (the three per-type linters; their accepted kinds are the
      tables of `Xp.Gen.C15Tables`, regenerated from the tree on every run),
-  internal/controller/pkg/signature/reconciler.go Reconciler.Reconcile.
+  internal/controller/pkg/signature/reconciler.go Reconciler.Reconcile,
+  internal/xpkg/config.go ImageConfigStore.bestMatch / ImageVerificationConfigFor.
 
 A package stream is a `List Doc`.  Bytes, YAML, tar, gzip and OCI are libraries:
 what matters of them is kept as data of the scenario / fault plan
@@ -24,6 +25,22 @@ what matters of them is kept as data of the scenario / fault plan
    (if anything keeps it) reads back as the arbitrary doc list `f.cut`;
  * a store fault (`f.store`) may or may not reach the parser (`f.seen`) and leaves
    `f.left` behind until `Delete` runs.
+
+The model is PER CALL: `recStep` / `sigStep` are functions of the revision object the call
+reads, the cache, the ImageConfigs and the fault plan of that call.  The real controllers are
+long-lived (one reconciler, parser, image backend, linter, establisher per package type, one
+cache – see Setup*Revision); the harness builds them once per scenario and drives every step
+of a history through them, so whatever they carry from one call to the next shows as a
+difference to this model.
+
+A fault plan also fixes
+ * the class of every API error the code distinguishes (`GetE`, `WErr`, `Upd`,
+   `estConflict`; `err` stands for Invalid / Forbidden / AlreadyExists / a temporary
+   transport error / a deadline, which the code treats alike), and
+ * `env`: what a third party did to the revision object between the reconciler's read and
+   its first write – equivalently how the informer cache lagged behind when the reconciler
+   read.  Then every write of the reconciler to the revision is rejected with Conflict
+   (`Faults.stale`), and the live object is what the third party made of it (`applyEnv`).
 
 `fixed = true` is the code with fixes/D6.diff (the reconciler closes the pipe into
 `cache.Store` with the parse error, so a failed read/parse fails the store and the
@@ -144,6 +161,7 @@ structure Rev where
   ptype : PType
   key : String     -- cache path of the revision's name
   skey : String    -- cache path of the revision's source (pull policy Never)
+  source : String := ""  -- spec.package, the image reference (what ImageConfig prefixes are matched against)
   docs : List Doc  -- package stream of the image the source resolves to
   imgOk : Bool     -- ImageBackend.Init finds the stream (one annotated base layer, or none and a flattened fs, holding package.yaml)
   never : Bool     -- packagePullPolicy: Never
@@ -190,6 +208,33 @@ inductive Upd where
   | ok | conflict | err
   deriving DecidableEq, Repr
 
+/-- class of the error a write on the revision object returns (what the code branches on:
+`kerrors.IsConflict`, `resource.IgnoreNotFound`); `err` stands for every other class
+(Invalid, Forbidden, AlreadyExists, a temporary transport error, a deadline). -/
+inductive WErr where
+  | ok | conflict | notFound | err
+  deriving DecidableEq, Repr
+
+/-- the reconciler's `client.Get` of the revision: served, NotFound although the object
+exists (informer cache has not seen it yet), or another error -/
+inductive GetE where
+  | ok | miss | err
+  deriving DecidableEq, Repr
+
+/-- What a third party (the package manager, the signature controller, a user, a
+backup/restore tool) did to the revision object between the reconciler's read and its
+first write.  Equivalently – the reconciler cannot tell the difference – what the informer
+cache had not delivered yet when the reconciler read (a lagging cache): in both cases the
+object the reconciler holds is not the live one, and every write it issues carries a
+resourceVersion the API server rejects with Conflict.
+ * `touch`    – a write that changes nothing the reconciler looks at (a label);
+ * `wipe`     – the status subresource is lost (conditions, object references);
+ * `recreate` – deleted and created again under the same name: new UID, no finalizer, no status;
+ * `flip`     – spec.desiredState toggled. -/
+inductive Env where
+  | none | touch | wipe | recreate | flip
+  deriving DecidableEq, Repr
+
 structure Faults where
   init : Bool := false    -- backend.Init fails
   read : Bool := false    -- the source fails mid-stream (at some byte b)
@@ -202,7 +247,33 @@ structure Faults where
   del : Bool := false     -- cache.Delete fails
   upd : Upd := .ok        -- client.Update(revision)
   est : Bool := false     -- Establish fails
+  estConflict : Bool := false  -- … with an error of class Conflict
+  getE : GetE := .ok      -- client.Get(revision)
+  fin : WErr := .ok       -- the Update issued by AddFinalizer / RemoveFinalizer
+  stat : Bool := false    -- client.Status().Update(revision) fails
+  env : Env := .none      -- third-party write between the read and the first write / stale cached read
   deriving Repr
+
+/-- the object the reconciler holds is not the live one -/
+def Faults.stale (f : Faults) : Bool := f.env != .none
+/-- outcome of the finalizer's Update: an injected (transport / admission) error, else
+Conflict when the object is stale -/
+def Faults.finO (f : Faults) : WErr :=
+  match f.fin with
+  | .ok => if f.stale then .conflict else .ok
+  | e => e
+/-- outcome of the metadata Update -/
+def Faults.updO (f : Faults) : Upd :=
+  match f.upd with
+  | .ok => if f.stale then .conflict else .ok
+  | e => e
+/-- a Status().Update fails -/
+def Faults.statO (f : Faults) : Bool := f.stale || f.stat
+
+/-- `pr.SetConditions(c); _ = r.client.Status().Update(ctx, pr)`: the condition is
+recorded unless the status update fails (the error is ignored) -/
+def setHealth (f : Faults) (st : RevSt) (h : Health) : RevSt :=
+  if f.statO then st else { st with health := h }
 
 /-- Outcome of obtaining and parsing the package. -/
 inductive Fetch where
@@ -277,50 +348,124 @@ structure Out where
 
 /-- Lint, one-meta check, metadata update, version gate, Establish (lines 778–931). -/
 def gates (r : Rev) (f : Faults) (st : RevSt) (p : Pkg) : RevSt × Out :=
-  if !lint r.ptype p then ({ st with health := .unhealthy }, { res := "err:lint" })
-  else if p.metas.length != 1 then ({ st with health := .unhealthy }, { res := "err:onemeta" })
-  else match f.upd with
+  if !lint r.ptype p then (setHealth f st .unhealthy, { res := "err:lint" })
+  else if p.metas.length != 1 then (setHealth f st .unhealthy, { res := "err:onemeta" })
+  else match f.updO with
   | .conflict => (st, { res := "requeue" })
-  | .err => ({ st with health := .unhealthy }, { res := "err:updmeta" })
+  | .err => (setHealth f st .unhealthy, { res := "err:updmeta" })
   | .ok =>
-    if !r.ignore && !compatible p then ({ st with health := .unhealthy }, { res := "ok" })
-    else if f.est then ({ st with health := .unhealthy }, { res := "err:establish", est := some p.objs, control := st.active })
+    if !r.ignore && !compatible p then
+      -- SetConditions(Unhealthy); return Status().Update(...)
+      (if f.statO then (st, { res := "err:status" }) else ({ st with health := .unhealthy }, { res := "ok" }))
+    else if f.est then
+      (if f.estConflict then (st, { res := "requeue", est := some p.objs, control := st.active })
+       else (setHealth f st .unhealthy, { res := "err:establish", est := some p.objs, control := st.active }))
+    else if f.statO then (st, { res := "err:status", est := some p.objs, control := st.active })
     else ({ st with health := .healthy, refs := p.objs.length }, { res := "ok", est := some p.objs, control := st.active })
 
-/-- One `revision.Reconciler.Reconcile` of revision `r`. -/
+/-- Obtaining the package, then the gates (lines 672–941); `st` already carries the finalizer. -/
+def install (fixed : Bool) (r : Rev) (f : Faults) (c : Cache) (st : RevSt) : Cache × RevSt × Out :=
+  match fetch fixed r f c with
+  | (c', .stop res unhealthy) => (c', (if unhealthy then setHealth f st .unhealthy else st), { res := res })
+  | (c', .parsed none) => (c', setHealth f st .unhealthy, { res := "err:parse" })
+  | (c', .parsed (some p)) => let (st', o) := gates r f st p; (c', st', o)
+
+/-- One `revision.Reconciler.Reconcile` of revision `r`; `st` is the revision object the
+reconciler's `Get` returns. -/
 def recStep (fixed : Bool) (feature : Bool) (r : Rev) (f : Faults) (c : Cache) (st : RevSt) : Cache × RevSt × Out :=
-  if !st.present then (c, st, { res := "ok" })                       -- Get: NotFound is ignored
+  if f.getE == .err then (c, st, { res := "err:get" })
+  else if !st.present || f.getE == .miss then (c, st, { res := "ok" })     -- Get: NotFound is ignored
   else if st.deleting then
-    -- cache.Delete(pr.GetName()); lock.RemoveSelf; RemoveFinalizer
+    -- cache.Delete(pr.GetName()); lock.RemoveSelf; RemoveFinalizer (IsConflict -> requeue, NotFound ignored)
     if f.del then (c, st, { res := "err:delcache" })
-    else (c.erase r.key, { st with present := false }, { res := "ok" })
+    else match f.finO with
+      | .ok => (c.erase r.key, { st with present := false }, { res := "ok" })
+      | .notFound => (c.erase r.key, st, { res := "ok" })
+      | .conflict => (c.erase r.key, st, { res := "requeue" })
+      | .err => (c.erase r.key, st, { res := "err:finalizer" })
   else if feature && !st.verif.isTrue then
     -- wait for the signature verification controller
-    if st.health.statusUnknown then (c, { st with health := .awaiting }, { res := "ok" })
+    if st.health.statusUnknown then
+      (if f.statO then (c, st, { res := "err:status" }) else (c, { st with health := .awaiting }, { res := "ok" }))
     else (c, st, { res := "ok" })
   else
-    let st := { st with finalizer := true }                            -- AddFinalizer
-    if !st.active && st.refs > 0 then (c, { st with health := .healthy }, { res := "ok" })
-    else
-      match fetch fixed r f c with
-      | (c', .stop res unhealthy) => (c', (if unhealthy then { st with health := .unhealthy } else st), { res := res })
-      | (c', .parsed none) => (c', { st with health := .unhealthy }, { res := "err:parse" })
-      | (c', .parsed (some p)) => let (st', o) := gates r f st p; (c', st', o)
+    -- AddFinalizer: an Update only when the finalizer is missing (IsConflict -> requeue)
+    match (if st.finalizer then WErr.ok else f.finO) with
+    | .conflict => (c, st, { res := "requeue" })
+    | .notFound => (c, st, { res := "err:finalizer" })
+    | .err => (c, st, { res := "err:finalizer" })
+    | .ok =>
+      if !st.active && st.refs > 0 then
+        (if f.statO then (c, { st with finalizer := true }, { res := "err:status" })
+         else (c, { st with finalizer := true, health := .healthy }, { res := "ok" }))
+      else install fixed r f c { st with finalizer := true }
 
 /-! ### the signature verification controller -/
+
+/-- `spec.verification` of an ImageConfig: absent (the config only carries e.g. a pull
+secret), present with a cosign section, present without one -/
+inductive CfgVerif where
+  | none | cosign | nocosign
+  deriving DecidableEq, Repr
+
+/-- an ImageConfig, as far as image matching and verification go -/
+structure ImgCfg where
+  name : String
+  prefixes : List String    -- spec.matchImages[*].prefix
+  verif : CfgVerif
+  ok : Bool                 -- the validator's verdict on the image under this config (a library verdict)
+  deriving DecidableEq, Repr
+
+/-- the inner loop of `ImageConfigStore.bestMatch` over one config's matchImages:
+`strings.HasPrefix(image, m.Prefix) && len(m.Prefix) > longest` -/
+def scanPrefixes (image : String) (c : ImgCfg) : List String → Nat × Option ImgCfg → Nat × Option ImgCfg
+  | [], acc => acc
+  | p :: ps, acc =>
+    scanPrefixes image c ps (if p.isPrefixOf image && p.utf8ByteSize > acc.1 then (p.utf8ByteSize, some c) else acc)
+
+/-- the outer loop: configs in list order, those that are not `valid` skipped -/
+def scanCfgs (valid : ImgCfg → Bool) (image : String) : List ImgCfg → Nat × Option ImgCfg → Nat × Option ImgCfg
+  | [], acc => acc
+  | c :: cs, acc => scanCfgs valid image cs (if valid c then scanPrefixes image c c.prefixes acc else acc)
+
+/-- `ImageConfigStore.bestMatch`: the valid config with the longest matching prefix
+(the first one in list order among equally long ones); an empty prefix never matches. -/
+def bestMatch (valid : ImgCfg → Bool) (image : String) (cfgs : List ImgCfg) : Option ImgCfg :=
+  (scanCfgs valid image cfgs (0, none)).2
+
+def ImgCfg.verifies (c : ImgCfg) : Bool := c.verif != .none
 
 inductive SigCfg where
   | none | some | err
   deriving DecidableEq, Repr
 
-def sigStep (cfg : SigCfg) (valid : Bool) (st : RevSt) : RevSt × String :=
-  if !st.present then (st, "ok")
+/-- `ImageVerificationConfigFor(image)` and the verdict the validator would give under the
+selected config: no verifying config matches / the best match (with cosign) / an error
+(listing fails, or the best match has no cosign section). -/
+def verifCfgFor (cfgs : List ImgCfg) (image : String) (listErr : Bool) : SigCfg × Bool :=
+  if listErr then (.err, false)
+  else match bestMatch ImgCfg.verifies image cfgs with
+    | none => (.none, false)
+    | some c => if c.verif == .nocosign then (.err, false) else (.some, c.ok)
+
+/-- faults of one signature reconcile -/
+structure SigF where
+  getE : GetE := .ok      -- client.Get(revision)
+  stat : Bool := false    -- client.Status().Update(revision) fails (injected, or Conflict after a stale read)
+  listErr : Bool := false -- listing ImageConfigs fails
+  deriving DecidableEq, Repr
+
+def sigStep (cfg : SigCfg) (valid : Bool) (sf : SigF) (st : RevSt) : RevSt × String :=
+  if sf.getE == .err then (st, "err:get")
+  else if !st.present || sf.getE == .miss then (st, "ok")
   else if !st.active then (st, "ok")
   else if st.verif.isTrue then (st, "ok")
   else match cfg with
-  | .err => ({ st with verif := .incomplete }, "err:sigcfg")
-  | .none => ({ st with verif := .skipped }, "ok")
-  | .some => if valid then ({ st with verif := .succeeded }, "ok") else ({ st with verif := .failed }, "err:sigfail")
+  | .err => ((if sf.stat then st else { st with verif := .incomplete }), "err:sigcfg")
+  | .none => if sf.stat then (st, "err:status") else ({ st with verif := .skipped }, "ok")
+  | .some =>
+    if sf.stat then (st, "err:status")
+    else if valid then ({ st with verif := .succeeded }, "ok") else ({ st with verif := .failed }, "err:sigfail")
 
 /-! ### histories -/
 
@@ -328,12 +473,15 @@ inductive Step where
   /-- the environment sets the desired state / deletes the revision, then the revision controller reconciles it -/
   | reconcile (i : Nat) (active deleted : Bool) (f : Faults)
   /-- the signature controller reconciles it -/
-  | verify (i : Nat) (cfg : SigCfg) (valid : Bool)
+  | verify (i : Nat) (sf : SigF)
+  /-- a user replaces the ImageConfigs of the cluster -/
+  | configs (cfgs : List ImgCfg)
   deriving Repr
 
 structure World where
   cache : Cache
   sts : List RevSt
+  cfgs : List ImgCfg := []
 
 /-- the environment's part of a `rec` step (client Update of spec.desiredState, client Delete) -/
 def envStep (active deleted : Bool) (st : RevSt) : RevSt :=
@@ -342,19 +490,35 @@ def envStep (active deleted : Bool) (st : RevSt) : RevSt :=
     let st := { st with active := active }
     if deleted then (if st.finalizer then { st with deleting := true } else { st with present := false }) else st
 
+/-- the third party's write (see `Env`) on the live revision object -/
+def applyEnv : Env → RevSt → RevSt
+  | .none, st => st
+  | .touch, st => st
+  | .wipe, st => { st with health := .none, verif := .none, refs := 0 }
+  | .recreate, st => { active := st.active }
+  | .flip, st => { st with active := !st.active }
+
+/-- the third party acts only when there is an object the reconciler has read -/
+def envFires (f : Faults) (st : RevSt) : Bool := st.present && f.getE == .ok
+
 def World.step (fixed feature : Bool) (revs : List Rev) (w : World) : Step → World × Out
   | .reconcile i active deleted f =>
     match revs[i]?, w.sts[i]? with
     | some r, some st =>
-      let (c', st', o) := recStep fixed feature r f w.cache (envStep active deleted st)
-      ({ cache := c', sts := w.sts.set i st' }, o)
+      let st0 := envStep active deleted st
+      let (c', st', o) := recStep fixed feature r f w.cache st0
+      -- when the object read was stale none of the reconciler's writes landed (`recStep_stale`): the
+      -- live object is what the third party made of it
+      ({ w with cache := c', sts := w.sts.set i (if envFires f st0 then applyEnv f.env st' else st') }, o)
     | _, _ => (w, { res := "skip" })
-  | .verify i cfg valid =>
-    match w.sts[i]? with
-    | some st =>
-      let (st', res) := sigStep cfg valid st
-      ({ w with sts := w.sts.set i st' }, { res := res })
-    | none => (w, { res := "skip" })
+  | .verify i sf =>
+    match revs[i]?, w.sts[i]? with
+    | some r, some st =>
+      let cv := verifCfgFor w.cfgs r.source sf.listErr
+      let sr := sigStep cv.1 cv.2 sf st
+      ({ w with sts := w.sts.set i sr.1 }, { res := sr.2 })
+    | _, _ => (w, { res := "skip" })
+  | .configs cfgs => ({ w with cfgs := cfgs }, { res := "ok" })
 
 /-- run a history; returns the final world and every step's outcome -/
 def World.run (fixed feature : Bool) (revs : List Rev) : World → List Step → World × List Out
